@@ -62,8 +62,8 @@ let count_nodes g a input ifuel pN costsN (cc : int) (pn : int) stk p (cap : int
 let rec count_unfold (cap : int) (t : rtree) : int =
   let r = match t with
     | RTerm -> 0
-    | RRep (_, pa) -> Stdlib.max 1 (count_unfold cap pa)
-    | RMrg (_, alts, pa) -> List.fold_left (fun acc x -> if acc > cap then acc else acc + count_unfold cap x)
+    | RRep (_, _, pa) -> Stdlib.max 1 (count_unfold cap pa)
+    | RMrg (_, _, alts, pa) -> List.fold_left (fun acc x -> if acc > cap then acc else acc + count_unfold cap x)
                               (Stdlib.max 1 (count_unfold cap pa)) alts in
   if r > cap then cap + 1 else r
 
@@ -93,6 +93,7 @@ let () =
     let max_edits = int_of_float (geto "maxedits" 6.0) in
     let mfuel = int_of_float (geto "mfuel" 60000.0) in
     let ecap = int_of_float (geto "ecap" 12.0) in
+    let msmax = int_of_float (geto "msmax" 400.0) in
     let scap = int_of_float (geto "scap" 4000.0) in
     let pN = nat_of_int !pn and tRY = nat_of_int !trymax in
     let costsN = List.map n_of_int !costs and avoidN = List.map n_of_int !avoid in
@@ -167,7 +168,8 @@ let () =
                    (seq_str rs, flag)) out) in
                  List.iter (fun (s, f) -> Buffer.add_string b (Printf.sprintf " # RS %s : %s" (b2s f) s)) outs
              | None -> Buffer.add_string b (Printf.sprintf " # RF %s %d" !status bound));
-            if !status <> "cap" then begin
+            (* the mirrors only where the implementation's own search was small (its wall time is in the line) *)
+            if !status <> "cap" && nimpl > 0 && c.ms <= msmax then begin
               (* the mirror of the search, pinned and repaired *)
                  List.iter (fun (tag, fixed) ->
                    let small = (try (match dijkstra fixed g a input ifuel pN costsN (nat_of_int mfuel) stk p with
